@@ -104,7 +104,9 @@ def val_fns(item_kind, rng, allow_skip=False):
     if item_kind == 'tuple':
         return rng.choice([('T', lambda t: t, T), ('T[1]', lambda t: t[1], T[1]), ('fn', lambda t: t[::-1], lambda t: t[::-1])])
     if item_kind == 'seq':
-        return rng.choice([('T', lambda t: t, T), ('len', len, len)])
+        # (reductions under Auto inside the Group reduce the ITEM they are given; they are not the bucket's aggregator)
+        return rng.choice([('T', lambda t: t, T), ('len', len, len), ('Auto(Sum())', lambda t: sum(t), Auto(Sum())),
+                           ('Auto((T, Count()))', lambda t: len(t), Auto((T, Count())))])
     return rng.choice([('T', lambda t: t, T), ("T['v']", lambda t: t['v'], T['v']), ("auto v", lambda t: t['v'], Auto('v'))])
 
 
@@ -338,6 +340,12 @@ def gen_items(rng, kind, n, adversarial):
         items = [(rng.choice('abx'), rng.randint(0, 9)) for _ in range(n)]
     elif kind == 'seq':
         items = [[rng.randint(0, 9) for _ in range(rng.randint(0, 3))] for _ in range(n)]
+        # (the sequences routed to a Flatten / Count leaf need not be lists: tuples, ranges)
+        r = rng.random()
+        if r < 0.15:
+            items = [tuple(it) for it in items]
+        elif r < 0.3:
+            items = [range(it[0], it[0] + len(it)) if it else range(0) for it in items]
     else:
         items = [{'k': rng.choice('abx'), 'v': rng.randint(0, 9)} for _ in range(n)]
     if kind == 'tuple' and rng.random() < 0.0:
